@@ -58,7 +58,11 @@ KnownQ(x, kinds, cross) ==
     (IF x.cls \in ZFamily /\ kinds # {} /\ kinds \subseteq {"missing"} /\ cross
      THEN {"C01-zorder-cross-array"} ELSE {}) \cup
     (IF x.cls \in {"zo", "ezo"} /\ x.H >= 2 /\ kinds # {} /\ kinds \subseteq {"missing"}
-     THEN {"C01-zorder-subdivision"} ELSE {})
+     THEN {"C01-zorder-subdivision"} ELSE {}) \cup
+    \* not thread safe: wrong lists (or a crash) when the cache is filled by
+    \* several threads
+    (IF x.cls = "ezo" /\ x.threads > 1 /\ kinds # {}
+     THEN {"C01-ezo-threaded-cache"} ELSE {})
 KnownCrash(x) ==
     (IF x.cls \in ZFamily /\ x.anyempty THEN {"C01-zorder-empty-array"} ELSE {}) \cup
     (IF x.cls \in {"oct", "coct"} /\ MaxMult(x.plan) >= x.leaf
